@@ -36,6 +36,8 @@ def families(tier):
         {'name': 'stale', 'params': {'target': 'a/b/c/t', 'modes': MODES, 'faults': [None, 'a/b/c']}, 'weight': 3},
         {'name': 'fresh', 'params': {'target': 'a/b/c/t', 'modes': ['ok', 'raise_before', 'raise_after', 'no_create'], 'faults': [None],
                                      'nested': True}, 'weight': 2},
+        {'name': 'stale', 'params': {'target': 'a/b/c/t', 'modes': ['ok', 'raise_before', 'raise_after'], 'faults': [None, 'a/b/c'],
+                                     'sibling': 'prefix', 'root_raises': True, 'mut_paths': ['a/b/cc/z', 'a/b/c']}, 'weight': 2},
     ]
     if tier == 'quick':
         return q
@@ -63,6 +65,7 @@ class Run:
         self.w, self.fs = w, fs
         self.name = name
         self.nested = nested
+        self.root_raises = False
         self.target, self.mode, self.content, self.how, self.sibling = target, mode, content, how, sibling
         self.obs = {}
         self.raised = None
@@ -103,7 +106,13 @@ class Run:
     def root(self, b):
         w = self.w
         t = w.p(self.target)
-        if self.sibling:
+        if self.sibling == 'prefix':
+            # an output in a sibling directory whose name has the target's directory name as a prefix (a/b/c vs a/b/cc)
+            try:
+                b.build_file(w.p(posixpath.dirname(self.target) + 'c/old'), 'sibp', lambda b2, fn: w.user_write(self.fs, fn, 78))
+            except Exception as e:
+                self.obs['sib'] = exc_name(e)
+        elif self.sibling:
             try:
                 b.build_file(w.p(posixpath.dirname(self.target) + '/sib'), 'sib', lambda b2, fn: w.user_write(self.fs, fn, 77))
             except Exception as e:
@@ -116,6 +125,7 @@ class Run:
             self.obs['outcome'] = exc_name(e)
             self.obs['exc'] = e
         self.obs['real_target'] = self.fs.kind(t)
+        self.obs['parents_ok'] = all(self.fs.kind(w.p(d)) == DIR for d in CHAIN[:-1] if self.target.startswith(d + '/'))
         if self.obs['outcome'] == 'ok':
             n = self.fs.lookup(t) if hasattr(self.fs, 'lookup') else None
             self.obs['real_cid'] = n.cid if n is not None else self.fs.read_cid(t)
@@ -124,6 +134,9 @@ class Run:
             p = w.p(rel)
             virt[rel] = [b.is_file(p), b.is_dir(p)]
         self.obs['virt'] = virt
+        if self.root_raises:
+            # the build as a whole fails afterwards: whatever the call created must be gone after the rollback too
+            raise Boom()
         return [self.obs['outcome'], virt]
 
 
@@ -154,8 +167,13 @@ def harness(eng, fam, P):
             mutate(eng, w, 'm', ['none', 'delete', 'write', 'rmtree', 'file2dir'], ['a/b/c/t', 'a/b/c', 'a/b/z', 'a/b'])
         nested = [None, 'before', 'after'][eng.choose('nested', 3)] if P.get('nested') else None
         eng.path_info['nested'] = nested
-        ri = Run(w, w.fs, target, mode, content, how, P.get('sibling'), nested=nested)
-        rr = Run(w, w.ref, target, mode, content, how, P.get('sibling'), nested=nested)
+        sib2 = P.get('sibling')
+        root_raises = bool(eng.choose('root_raises', 2)) if P.get('root_raises') else False
+        eng.path_info['root_raises'] = root_raises
+        prev_created = list(state.created_dirs) if w.ref.kind(w.cache) == FILE else []
+        ri = Run(w, w.fs, target, mode, content, how, sib2, nested=nested)
+        rr = Run(w, w.ref, target, mode, content, how, sib2, nested=nested)
+        ri.root_raises = rr.root_raises = root_raises
         fault_path = w.p(fault) if fault else None
         fired = []
         if fault_path:
@@ -178,24 +196,35 @@ def harness(eng, fam, P):
             eng.witness('mkdir-fault')
         # ---- agreement with the reference (exception class, virtual view right after the call, final tree)
         eng.check('C10.build-outcome', impl[0] == ref[0], sig, info={'impl': repr(impl[1])[:200], 'ref': repr(ref[1])[:200]})
-        if impl[0] == 'ok':
+        if True:
             eng.check('C10.outcome-class', oi.get('outcome') == orf.get('outcome'), sig + (oi.get('outcome'), orf.get('outcome')),
                       info={'impl': oi.get('outcome'), 'ref': orf.get('outcome')})
             for rel in oi['virt']:
                 eng.check('C10.virtual-view-after-call', oi['virt'][rel] == orf['virt'][rel],
                           sig + (rel, str(oi['virt'][rel]), str(orf['virt'][rel])),
                           info={'path': rel, 'impl [is_file,is_dir]': oi['virt'][rel], 'ref': orf['virt'][rel]})
+        if impl[0] == 'exc':
+            # rolled back: directories the previous commit recorded as created may reappear (with their ancestors)
+            for d_ in sorted(prev_created, key=len):
+                todo = []
+                q = d_
+                while w.ref.kind(q) == ABSENT and w.fs.kind(q) == DIR:
+                    todo.append(q)
+                    q = posixpath.dirname(q)
+                if w.ref.kind(q) == DIR:
+                    for q in reversed(todo):
+                        w.ref.add_dir(q)
         a, b = w.snap(w.fs), w.snap(w.ref)
         for p in sorted(set(a) | set(b)):
             ka = a[p][0] if p in a else '-'
             kb = b[p][0] if p in b else '-'
             eng.check('C10.final-tree', ka == kb, sig + (w.rel(p), ka, kb), info={'path': w.rel(p), 'impl': ka, 'ref': kb})
         # ---- the contract itself, on the implementation's observations
-        if impl[0] == 'ok' and oi.get('outcome') == 'ok':
+        if oi.get('outcome') == 'ok':
             eng.witness('success')
             eng.check('C10.target-is-file', oi['real_target'] == FILE, sig)
             eng.check('C10.target-content', L.eq(oi['real_cid'], content), sig)
-            eng.check('C10.parents-exist', all(w.fs.kind(w.p(d)) == DIR for d in CHAIN[:-1] if target.startswith(d + '/')), sig)
+            eng.check('C10.parents-exist', oi.get('parents_ok') is True, sig)
             eng.check('C10.function-got-absolute-normalised-path', oi.get('fn') == w.p(target), sig + (how,), info={'fn': oi.get('fn')})
             eng.check('C10.target-absent-at-start', oi.get('absent_at_start') is True and oi.get('virt_in') == (False, False), sig,
                       info={'absent_at_start': oi.get('absent_at_start'), 'virt_in': oi.get('virt_in')})
@@ -203,7 +232,7 @@ def harness(eng, fam, P):
             eng.check('C10.return-json-normalised',
                       ret == [1, [2, {'k': [3]}]] and type(ret) is list and type(ret[1]) is list and
                       type(ret[1][1]['k']) is list, sig, info={'ret': repr(ret)})
-        elif impl[0] == 'ok':
+        elif oi.get('outcome') is not None:
             if ri.raised is not None:
                 eng.witness('user-failure')
                 eng.check('C10.same-exception-object', oi.get('exc') is ri.raised, sig)
